@@ -1,2 +1,569 @@
-(* placeholder, proofs follow *)
+(* C06/Lemmas.v — proofs about C06/Model.v.  Part 1: per-axis arithmetic. *)
+From Coq Require Import ZArith List Bool Lia ZifyBool.
 From NV Require Import Base.PySlice C06.Model.
+Import ListNotations.
+Open Scope Z_scope.
+
+(* indices selected by a filled slicer *)
+Definition fsl_triple (f : fsl) : Z * Z * Z := (f_start f, stop_or f, f_step f).
+Definition fsl_indices (f : fsl) : list Z := range_of (fsl_triple f).
+
+Lemma zseq_0 : zseq 0 = [].
+Proof. reflexivity. Qed.
+
+Lemma range_of_empty t : slen t = 0 -> range_of t = [].
+Proof. intros H. unfold range_of. now rewrite H. Qed.
+
+Lemma range_of_length t : Z.of_nat (length (range_of t)) = slen t.
+Proof. unfold range_of. rewrite map_length. apply zseq_length, slen_nonneg. Qed.
+
+Lemma range_of_ext a b b' st : slen (a, b, st) = slen (a, b', st) -> range_of (a, b, st) = range_of (a, b', st).
+Proof. intros H. unfold range_of. rewrite H. reflexivity. Qed.
+
+(* ---- fill_slicer: same selected indices as Python's slice on an axis of length n *)
+Lemma fill_slicer_ok s n : step_of s <> 0 -> exists f, fill_slicer s n = Ok f.
+Proof.
+  intros H. unfold fill_slicer. replace (step_of s =? 0) with false by lia.
+  destruct (adjust n s) as [[a b] st].
+  destruct (st <? 0); [destruct (a <? 0); [|destruct (b <? 0)]|]; eexists; reflexivity.
+Qed.
+
+Lemma fill_slicer_step0 s n : step_of s = 0 -> fill_slicer s n = Err EValue.
+Proof. intros H. unfold fill_slicer. now rewrite H. Qed.
+
+Lemma fill_slicer_indices s n f : 0 <= n -> fill_slicer s n = Ok f ->
+  fsl_indices f = py_indices n s /\ f_step f = step_of s /\ step_of s <> 0.
+Proof.
+  intros Hn. unfold fill_slicer.
+  destruct (step_of s =? 0) eqn:E0; [discriminate|].
+  pose proof (adjust_bounds n s Hn) as HB. pose proof (adjust_step n s) as HS.
+  unfold py_indices. destruct (adjust n s) as [[a b] st] eqn:EA. cbn [snd] in HS. subst st.
+  destruct HB as [HB1 HB2].
+  destruct (step_of s <? 0) eqn:E1.
+  - specialize (HB2 ltac:(lia)).
+    destruct (a <? 0) eqn:E2; [|destruct (b <? 0) eqn:E3]; intros H; injection H as <-;
+      (split; [|split; [reflexivity|lia]]); unfold fsl_indices, fsl_triple, stop_or; cbn [f_start f_stop f_step].
+    + assert (E1' : slen (a, b, step_of s) = 0)
+        by (unfold slen; replace (0 <? step_of s) with false by lia; replace (b <? a) with false by lia; reflexivity).
+      assert (E2' : slen (0, 0, step_of s) = 0)
+        by (unfold slen; replace (0 <? step_of s) with false by lia; reflexivity).
+      now rewrite (range_of_empty _ E1'), (range_of_empty _ E2').
+    + replace b with (-1) by lia. reflexivity.
+    + reflexivity.
+  - intros H; injection H as <-. split; [reflexivity|split; [reflexivity|lia]].
+Qed.
+
+(* ---- _full_slicer_len is len(range(...)) *)
+Lemma cdiv_pos gap st : 0 < st -> 0 < gap -> cdiv gap st = (gap - 1) / st + 1.
+Proof. intros. unfold cdiv. Z.to_euclidean_division_equations. nia. Qed.
+
+Lemma cdiv_neg gap st : st < 0 -> gap < 0 -> cdiv gap st = (- gap - 1) / (- st) + 1.
+Proof. intros. unfold cdiv. Z.to_euclidean_division_equations. nia. Qed.
+
+Lemma full_slicer_len_spec f : f_step f <> 0 -> full_slicer_len f = slen (fsl_triple f).
+Proof.
+  intros Hs. unfold full_slicer_len, slen, fsl_triple.
+  set (a := f_start f). set (b := stop_or f). set (st := f_step f) in *.
+  destruct (0 <? st) eqn:E1.
+  - destruct (a <? b) eqn:E2.
+    + replace ((true && (b - a <=? 0)) || ((st <? 0) && (0 <=? b - a))) with false by lia.
+      rewrite cdiv_pos by lia. reflexivity.
+    + replace ((true && (b - a <=? 0)) || ((st <? 0) && (0 <=? b - a))) with true by lia. reflexivity.
+  - destruct (b <? a) eqn:E2.
+    + replace ((false && (b - a <=? 0)) || ((st <? 0) && (0 <=? b - a))) with false by lia.
+      rewrite cdiv_neg by lia. replace (- (b - a) - 1) with (a - b - 1) by lia. reflexivity.
+    + replace ((false && (b - a <=? 0)) || ((st <? 0) && (0 <=? b - a))) with true by lia. reflexivity.
+Qed.
+
+Lemma slice2len_spec s n : 0 <= n -> step_of s <> 0 -> slice2len s n = Ok (zlen (py_indices n s)).
+Proof.
+  intros Hn Hs. unfold slice2len.
+  destruct (pslice_eqb s sl_none) eqn:E.
+  - assert (s = sl_none).
+    { destruct s as [[a|] [b|] [c|]]; try discriminate. reflexivity. }
+    subst s. rewrite py_indices_none by lia. unfold zlen. now rewrite zseq_length.
+  - destruct (fill_slicer_ok s n Hs) as [f Hf]. rewrite Hf. cbn [bind].
+    destruct (fill_slicer_indices s n f Hn Hf) as (Hi & Hst & _).
+    rewrite full_slicer_len_spec by lia. unfold zlen. rewrite <- Hi.
+    unfold fsl_indices. now rewrite range_of_length.
+Qed.
+
+(* ------------------------------------------------------------------------------------
+   ranges as index lists: membership without division *)
+Definition inside (t : Z * Z * Z) (j : Z) : Prop :=
+  let '(a, b, st) := t in (0 < st /\ a + j * st < b) \/ (st < 0 /\ b < a + j * st).
+
+Lemma slen_iff a b st j : st <> 0 -> 0 <= j -> (j < slen (a, b, st) <-> inside (a, b, st) j).
+Proof.
+  intros Hst Hj. pose proof (range_maximal a b st Hst) as [HM1 HM2].
+  pose proof (slen_nonneg (a, b, st)) as Hn. unfold inside. split.
+  - intros Hlt. pose proof (range_bound a b st j Hst ltac:(lia)) as [HB1 HB2].
+    destruct (Z_lt_ge_dec 0 st); [left; specialize (HB1 ltac:(lia)); lia|right; specialize (HB2 ltac:(lia)); lia].
+  - intros [[Hp H]|[Hm H]].
+    + specialize (HM1 Hp). destruct (Z_lt_ge_dec j (slen (a, b, st))); [assumption|]. nia.
+    + specialize (HM2 Hm). destruct (Z_lt_ge_dec j (slen (a, b, st))); [assumption|]. nia.
+Qed.
+
+Lemma slen_eq t t' : snd t <> 0 -> snd t' <> 0 ->
+  (forall j, 0 <= j -> (inside t j <-> inside t' j)) -> slen t = slen t'.
+Proof.
+  destruct t as [[a b] st], t' as [[a' b'] st']. cbn [snd]. intros H1 H2 H.
+  pose proof (slen_nonneg (a, b, st)) as N1. pose proof (slen_nonneg (a', b', st')) as N2.
+  destruct (Z.lt_trichotomy (slen (a, b, st)) (slen (a', b', st'))) as [L|[E|L]]; [|assumption|].
+  - exfalso. apply (slen_iff a' b' st' _ H2 N1) in L. apply H in L; [|assumption].
+    apply (slen_iff a b st _ H1 N1) in L. lia.
+  - exfalso. apply (slen_iff a b st _ H1 N2) in L. apply H in L; [|assumption].
+    apply (slen_iff a' b' st' _ H2 N2) in L. lia.
+Qed.
+
+Definition sel_nth (L J : list Z) : list Z := map (fun j => nth (Z.to_nat j) L 0) J.
+
+Lemma nth_zseq n j d : 0 <= j < n -> nth (Z.to_nat j) (zseq n) d = j.
+Proof.
+  intros H. unfold zseq. rewrite (nth_indep _ d (Z.of_nat 0)) by (rewrite map_length, seq_length; lia).
+  rewrite map_nth, seq_nth by lia. lia.
+Qed.
+
+Lemma nth_range_of t j d : 0 <= j < slen t -> nth (Z.to_nat j) (range_of t) d = snth t j.
+Proof.
+  intros H. unfold range_of.
+  rewrite (nth_indep _ d (snth t 0)) by (rewrite map_length; pose proof (zseq_length (slen t)); lia).
+  rewrite map_nth. f_equal. now apply nth_zseq.
+Qed.
+
+(* composition of ranges: picking the u-indexed elements of range t gives range v *)
+Lemma range_compose t u v :
+  slen u = slen v ->
+  (forall j, 0 <= j < slen u -> 0 <= snth u j < slen t /\ snth t (snth u j) = snth v j) ->
+  sel_nth (range_of t) (range_of u) = range_of v.
+Proof.
+  intros Hl H. unfold sel_nth. unfold range_of at 2 3. rewrite map_map, <- Hl.
+  apply map_ext_in. intros j Hj. apply zseq_In in Hj. destruct (H j Hj) as [H1 H2].
+  now rewrite nth_range_of.
+Qed.
+
+Lemma zseq_as_range n : 0 <= n -> zseq n = range_of (0, n, 1).
+Proof.
+  intros H. unfold range_of, snth, slen. cbn.
+  destruct (0 <? n) eqn:E.
+  - replace ((n - 0 - 1) / 1 + 1) with n by (rewrite Z.div_1_r; lia).
+    rewrite <- (map_id (zseq n)) at 1. apply map_ext. intros; lia.
+  - replace n with 0 by lia. reflexivity.
+Qed.
+
+Lemma slen_unit n : 0 <= n -> slen (0, n, 1) = n.
+Proof.
+  intros H. unfold slen. cbn. destruct (0 <? n) eqn:E; [|lia].
+  replace (n - 0 - 1) with (n - 1) by lia. rewrite Z.div_1_r. lia.
+Qed.
+
+Lemma zlen_range_of t : zlen (range_of t) = slen t.
+Proof. apply range_of_length. Qed.
+
+(* identity selection *)
+Lemma sel_nth_all t : sel_nth (range_of t) (zseq (slen t)) = range_of t.
+Proof.
+  rewrite (zseq_as_range _ (slen_nonneg t)). apply range_compose.
+  - apply slen_unit, slen_nonneg.
+  - intros j Hj. rewrite slen_unit in Hj by apply slen_nonneg. unfold snth at 1 2. cbn. split; [lia|f_equal; lia].
+Qed.
+
+(* reversed range *)
+Definition rev_triple (t : Z * Z * Z) : Z * Z * Z :=
+  let '(a, b, st) := t in (a + (slen t - 1) * st, a - st, - st).
+
+Lemma slen_rev_triple t : snd t <> 0 -> slen (rev_triple t) = slen t.
+Proof.
+  destruct t as [[a b] st]. cbn [snd]. intros Hst.
+  pose proof (slen_nonneg (a, b, st)) as Hn. set (m := slen (a, b, st)) in *.
+  unfold rev_triple. fold m.
+  destruct (Z.eq_dec m 0) as [E0|NE].
+  - rewrite E0. unfold slen. destruct (0 <? - st) eqn:E.
+    + replace (a + (0 - 1) * st <? a - st) with false by lia. reflexivity.
+    + replace (a - st <? a + (0 - 1) * st) with false by lia. reflexivity.
+  - pose proof (slen_nonneg (a + (m - 1) * st, a - st, - st)) as Hn'.
+    destruct (Z.lt_trichotomy (slen (a + (m - 1) * st, a - st, - st)) m) as [L|[E|L]]; [|assumption|]; exfalso.
+    + assert (Hi : inside (a + (m - 1) * st, a - st, - st) (slen (a + (m - 1) * st, a - st, - st))).
+      { unfold inside. destruct (Z_lt_ge_dec 0 st); [right|left]; nia. }
+      apply slen_iff in Hi; [lia|lia|lia].
+    + apply slen_iff in L; [|lia|lia]. unfold inside in L. nia.
+Qed.
+
+Lemma rev_range_of t : snd t <> 0 -> rev (range_of t) = range_of (rev_triple t).
+Proof.
+  intros Hst. pose proof (slen_rev_triple t Hst) as Hl.
+  apply nth_ext with (d := 0) (d' := 0).
+  - rewrite rev_length. apply Nat2Z.inj. rewrite !range_of_length. now symmetry.
+  - intros k Hk. rewrite rev_length in Hk.
+    assert (Hk' : Z.of_nat k < slen t) by (rewrite <- range_of_length; lia).
+    rewrite rev_nth by assumption.
+    replace (length (range_of t) - S k)%nat with (Z.to_nat (slen t - 1 - Z.of_nat k))
+      by (pose proof (range_of_length t); lia).
+    rewrite nth_range_of by lia.
+    replace k with (Z.to_nat (Z.of_nat k)) at 2 by lia.
+    rewrite nth_range_of by lia.
+    destruct t as [[a b] st]. unfold rev_triple, snth. lia.
+Qed.
+
+Lemma sel_nth_rev t : snd t <> 0 ->
+  sel_nth (range_of t) (range_of (slen t - 1, -1, -1)) = rev (range_of t).
+Proof.
+  intros Hst. rewrite rev_range_of by assumption. pose proof (slen_nonneg t) as Hn.
+  assert (Hl : slen (slen t - 1, -1, -1) = slen t).
+  { unfold slen at 1. cbn. destruct (-1 <? slen t - 1) eqn:E; [|lia].
+    replace (slen t - 1 - -1 - 1) with (slen t - 1) by lia. rewrite Z.div_1_r. lia. }
+  apply range_compose.
+  - rewrite Hl. symmetry. now apply slen_rev_triple.
+  - intros j Hj. rewrite Hl in Hj. destruct t as [[a b] st]. unfold snth, rev_triple. split; [lia|lia].
+Qed.
+
+(* ------------------------------------------------------------------------------------
+   filled slicers relative to an axis length *)
+Definition wf_fsl (n : Z) (f : fsl) : Prop :=
+  (0 < f_step f /\ 0 <= f_start f <= n /\ exists b, f_stop f = Some b /\ 0 <= b <= n)
+  \/ (f_step f < 0 /\
+      ((0 <= f_start f <= n - 1 /\ (f_stop f = None \/ exists b, f_stop f = Some b /\ 0 <= b <= n - 1))
+       \/ (f_start f = 0 /\ f_stop f = Some 0))).
+
+Lemma fill_slicer_wf s n f : 0 <= n -> fill_slicer s n = Ok f -> wf_fsl n f.
+Proof.
+  intros Hn. unfold fill_slicer. destruct (step_of s =? 0) eqn:E0; [discriminate|].
+  pose proof (adjust_bounds n s Hn) as HB. pose proof (adjust_step n s) as HS.
+  destruct (adjust n s) as [[a b] st] eqn:EA. cbn [snd] in HS. subst st. destruct HB as [HB1 HB2].
+  unfold wf_fsl.
+  destruct (step_of s <? 0) eqn:E1.
+  - specialize (HB2 ltac:(lia)).
+    destruct (a <? 0) eqn:E2; [|destruct (b <? 0) eqn:E3]; intros H; injection H as <-; cbn [f_start f_stop f_step]; right;
+      (split; [lia|]).
+    + right. split; reflexivity.
+    + left. split; [lia|]. left; reflexivity.
+    + left. split; [lia|]. right. exists b. split; [reflexivity|lia].
+  - specialize (HB1 ltac:(lia)). intros H; injection H as <-; cbn [f_start f_stop f_step]. left.
+    split; [lia|]. split; [lia|]. exists b. split; [reflexivity|lia].
+Qed.
+
+Lemma py_indices_fsl n f : 0 <= n -> wf_fsl n f -> py_indices n (fsl_to_pslice f) = fsl_indices f.
+Proof.
+  intros Hn Hwf. unfold py_indices, fsl_indices, fsl_triple, fsl_to_pslice, adjust, step_of, clampv, stop_or.
+  cbn [s_start s_stop s_step].
+  destruct Hwf as [(Hst & Ha & b & Hb & Hbb)|(Hst & [(Ha & [Hb|(b & Hb & Hbb)])|(Ha & Hb)])]; rewrite Hb.
+  - replace (f_step f <? 0) with false by lia. replace (f_start f <? 0) with false by lia.
+    replace (b <? 0) with false by lia. rewrite !Z.min_l by lia. reflexivity.
+  - replace (f_step f <? 0) with true by lia. replace (f_start f <? 0) with false by lia.
+    rewrite Z.min_l by lia. reflexivity.
+  - replace (f_step f <? 0) with true by lia. replace (f_start f <? 0) with false by lia.
+    replace (b <? 0) with false by lia. rewrite !Z.min_l by lia. reflexivity.
+  - rewrite Ha. replace (f_step f <? 0) with true by lia. cbn [Z.ltb Z.compare].
+    rewrite !range_of_empty; [reflexivity| |]; unfold slen; replace (0 <? f_step f) with false by lia.
+    + reflexivity.
+    + destruct (Z.min 0 (n - 1) <? Z.min 0 (n - 1)) eqn:E; [lia|reflexivity].
+Qed.
+
+(* _positive_slice enumerates the same indices backwards *)
+Lemma positive_slice_spec f : f_step f < 0 ->
+  fsl_indices (positive_slice f) = rev (fsl_indices f)
+  /\ f_step (positive_slice f) = - f_step f
+  /\ exists b, f_stop (positive_slice f) = Some b.
+Proof.
+  intros Hst. unfold positive_slice. replace (0 <? f_step f) with false by lia.
+  unfold fsl_indices. rewrite rev_range_of by (unfold fsl_triple; cbn; lia).
+  pose proof (full_slicer_len_spec f ltac:(lia)) as HL.
+  unfold full_slicer_len in HL. unfold fsl_triple in *. cbn [rev_triple].
+  set (a := f_start f) in *. set (b := stop_or f) in *. set (st := f_step f) in *.
+  destruct (0 <=? b - a) eqn:Eg.
+  - cbn [f_start f_stop f_step stop_or].
+    replace ((0 <? st) && (b - a <=? 0) || (st <? 0) && true) with true in HL by lia.
+    rewrite <- HL. split; [|split; [reflexivity|eexists; reflexivity]].
+    rewrite !range_of_empty; [reflexivity| |]; unfold slen.
+    + replace (0 <? - st) with true by lia. replace (a + (0 - 1) * st <? a - st) with false by lia. reflexivity.
+    + replace (0 <? - st) with true by lia. reflexivity.
+  - cbn [f_start f_stop f_step stop_or].
+    replace ((0 <? st) && (b - a <=? 0) || (st <? 0) && false) with false in HL by lia.
+    rewrite <- HL. split; [|split; [reflexivity|eexists; reflexivity]].
+    apply range_of_ext.
+    apply slen_eq; cbn [snd]; [lia|lia|]. intros j Hj. unfold inside.
+    clear HL. set (c := cdiv (b - a) st). clearbody c.
+    split; intros [[H1 H2]|[H1 H2]]; try lia.
+    all: left; (split; [lia|]); assert (0 <= c - 1 - j) by nia; nia.
+Qed.
+
+(* ------------------------------------------------------------------------------------
+   optimize_slicer: what is read, post-sliced, is what was asked for (any heuristic) *)
+Lemma slen_step1 a b : slen (a, b, 1) = if a <? b then b - a else 0.
+Proof.
+  unfold slen. cbn. destruct (a <? b) eqn:E; [|reflexivity]. rewrite Z.div_1_r. lia.
+Qed.
+
+Lemma sel_nth_zseq n J : (forall j, In j J -> 0 <= j < n) -> sel_nth (zseq n) J = J.
+Proof.
+  intros H. unfold sel_nth. rewrite <- (map_id J) at 2. apply map_ext_in. intros j Hj.
+  apply nth_zseq. now apply H.
+Qed.
+
+Lemma py_indices_rev1 m : 0 <= m -> py_indices m (rev_slice (-1)) = range_of (m - 1, -1, -1).
+Proof. intros H. reflexivity. Qed.
+
+Lemma py_indices_revstep m st : 0 <= m -> st <> 0 ->
+  py_indices m (rev_slice st) = range_of (if st <? 0 then (m - 1, -1, st) else (0, m, st)).
+Proof.
+  intros H Hs. unfold py_indices, adjust, rev_slice, step_of. cbn [s_start s_stop s_step].
+  destruct (st <? 0); reflexivity.
+Qed.
+
+Definition valid_cidx (n : Z) (c : cidx) : Prop :=
+  match c with CInt k => 0 <= k < n | CSl s => step_of s <> 0 | CNew => False end.
+
+Definition read_post_ok (n : Z) (orig : list Z) (rd : cidx) (ps : post) : Prop :=
+  match rd with
+  | CInt k => orig = [k] /\ ps = PDrop
+  | CSl r => 0 < step_of r
+             /\ sel_nth (py_indices n r) (axis_sel (zlen (py_indices n r)) (post_to_cidx ps)) = orig
+             /\ ps <> PDrop
+  | CNew => False
+  end.
+
+Lemma rpo_none_none n : 0 <= n -> read_post_ok n (range_of (0, n, 1)) (CSl sl_none) (PSl sl_none).
+Proof.
+  intros Hn. unfold read_post_ok. split; [reflexivity|]. split; [|discriminate].
+  cbn [post_to_cidx axis_sel]. rewrite (py_indices_none n Hn).
+  assert (E : zlen (zseq n) = n) by (unfold zlen; now apply zseq_length). rewrite E.
+  rewrite (py_indices_none n Hn). rewrite sel_nth_zseq by (intros j Hj; now apply zseq_In).
+  now apply zseq_as_range.
+Qed.
+
+Lemma rpo_none_rev n : 0 <= n -> read_post_ok n (range_of (n - 1, -1, -1)) (CSl sl_none) (PSl (rev_slice (-1))).
+Proof.
+  intros Hn. unfold read_post_ok. split; [reflexivity|]. split; [|discriminate].
+  cbn [post_to_cidx axis_sel]. rewrite (py_indices_none n Hn).
+  assert (E : zlen (zseq n) = n) by (unfold zlen; now apply zseq_length). rewrite E.
+  rewrite py_indices_rev1 by assumption.
+  rewrite (zseq_as_range n Hn).
+  replace (n - 1, -1, -1) with (slen (0, n, 1) - 1, -1, -1) at 1 by (rewrite (slen_unit n Hn); reflexivity).
+  rewrite sel_nth_rev by (cbn; lia). rewrite rev_range_of by (cbn; lia).
+  unfold rev_triple. rewrite (slen_unit n Hn).
+  replace (0 + (n - 1) * 1) with (n - 1) by lia. reflexivity.
+Qed.
+
+Lemma rpo_full_slice n f : 0 <= n -> wf_fsl n f -> f_step f <> 0 ->
+  read_post_ok n (fsl_indices f) (CSl sl_none) (PSl (fsl_to_pslice f)).
+Proof.
+  intros Hn Hwf Hst. unfold read_post_ok. split; [reflexivity|]. split; [|discriminate].
+  cbn [post_to_cidx axis_sel]. rewrite (py_indices_none n Hn).
+  assert (E : zlen (zseq n) = n) by (unfold zlen; now apply zseq_length). rewrite E.
+  rewrite sel_nth_zseq; [now apply py_indices_fsl|].
+  intros j Hj. apply (py_indices_in_range n (fsl_to_pslice f)); [assumption| |assumption].
+  unfold step_of, fsl_to_pslice. cbn. assumption.
+Qed.
+
+Lemma rpo_full_int n k : 0 <= k < n -> read_post_ok n [k] (CSl sl_none) (PInt k).
+Proof.
+  intros Hk. unfold read_post_ok. split; [reflexivity|]. split; [|discriminate].
+  cbn [post_to_cidx axis_sel]. rewrite py_indices_none by lia. apply sel_nth_zseq.
+  intros j [<-|[]]. assumption.
+Qed.
+
+Lemma rpo_same_pos n f : 0 <= n -> wf_fsl n f -> 0 < f_step f ->
+  read_post_ok n (fsl_indices f) (CSl (fsl_to_pslice f)) (PSl sl_none).
+Proof.
+  intros Hn Hwf Hst. unfold read_post_ok. split; [exact Hst|]. split; [|discriminate].
+  cbn [post_to_cidx axis_sel]. rewrite py_indices_fsl by assumption.
+  rewrite py_indices_none by apply Nat2Z.is_nonneg.
+  unfold fsl_indices. rewrite zlen_range_of. apply sel_nth_all.
+Qed.
+
+(* the positive version of a wf negative-step slicer is wf *)
+Lemma positive_slice_wf n f : 0 <= n -> wf_fsl n f -> f_step f < 0 -> wf_fsl n (positive_slice f).
+Proof.
+  intros Hn Hwf Hst. unfold positive_slice. replace (0 <? f_step f) with false by lia.
+  assert (Hab : -1 <= stop_or f /\ (stop_or f < f_start f -> 0 <= f_start f <= n - 1)).
+  { unfold stop_or. destruct Hwf as [(H & _)|(_ & [(Ha & [Hb|(b0 & Hb & Hbb)])|(Ha & Hb)])]; try rewrite Hb; lia. }
+  pose proof (full_slicer_len_spec f ltac:(lia)) as HL. unfold full_slicer_len in HL.
+  unfold fsl_triple in HL.
+  set (a := f_start f) in *. set (b := stop_or f) in *. set (st := f_step f) in *.
+  destruct (0 <=? b - a) eqn:Eg.
+  - left. cbn. split; [lia|]. split; [lia|]. exists 0. split; [reflexivity|lia].
+  - replace ((0 <? st) && (b - a <=? 0) || (st <? 0) && false) with false in HL by lia.
+    rewrite HL. set (c := slen (a, b, st)).
+    assert (Hc : 0 < c).
+    { assert (H0 : inside (a, b, st) 0) by (unfold inside; right; lia).
+      apply slen_iff in H0; [exact H0|lia|lia]. }
+    pose proof (range_bound a b st (c - 1) ltac:(lia) ltac:(unfold c; lia)) as [_ HB]. specialize (HB Hst).
+    left. cbn [f_start f_stop f_step]. split; [lia|]. split; [lia|]. exists (a + 1). split; [reflexivity|lia].
+Qed.
+
+Lemma rpo_positive_rev n f : 0 <= n -> wf_fsl n f -> f_step f < 0 ->
+  read_post_ok n (fsl_indices f) (CSl (fsl_to_pslice (positive_slice f))) (PSl (rev_slice (-1))).
+Proof.
+  intros Hn Hwf Hst. destruct (positive_slice_spec f Hst) as (Hi & Hs & _).
+  unfold read_post_ok. split; [unfold step_of, fsl_to_pslice; cbn; lia|]. split; [|discriminate].
+  cbn [post_to_cidx axis_sel]. rewrite py_indices_fsl by (try apply positive_slice_wf; assumption).
+  rewrite py_indices_rev1 by apply Nat2Z.is_nonneg.
+  unfold fsl_indices at 1 2. rewrite zlen_range_of.
+  rewrite sel_nth_rev by (unfold fsl_triple; cbn [snd]; lia).
+  fold (fsl_indices (positive_slice f)). rewrite Hi. apply rev_involutive.
+Qed.
+
+Lemma wf_fsl_unit n a b : 0 <= a <= n -> 0 <= b <= n -> wf_fsl n (mkF a (Some b) 1).
+Proof. intros Ha Hb. left. cbn. split; [lia|]. split; [lia|]. exists b. split; [reflexivity|lia]. Qed.
+
+Lemma rpo_contig_pos n f : 0 <= n -> wf_fsl n f -> 0 < f_step f ->
+  read_post_ok n (fsl_indices f) (CSl (mkSl (Some (f_start f)) (f_stop f) (Some 1))) (PSl (rev_slice (f_step f))).
+Proof.
+  intros Hn Hwf Hst.
+  destruct Hwf as [(_ & Ha & b & Hb & Hbb)|(H & _)]; [|lia].
+  unfold read_post_ok. split; [reflexivity|]. split; [|discriminate].
+  cbn [post_to_cidx axis_sel]. rewrite Hb.
+  change (mkSl (Some (f_start f)) (Some b) (Some 1)) with (fsl_to_pslice (mkF (f_start f) (Some b) 1)).
+  rewrite py_indices_fsl by (try apply wf_fsl_unit; assumption).
+  unfold fsl_indices at 1 2, fsl_triple. cbn [f_start f_stop f_step stop_or].
+  rewrite zlen_range_of. rewrite py_indices_revstep by (try apply slen_nonneg; lia).
+  replace (f_step f <? 0) with false by lia.
+  unfold fsl_indices, fsl_triple, stop_or. rewrite Hb.
+  set (a := f_start f) in *. set (st := f_step f) in *.
+  assert (Hm : slen (a, b, 1) = if a <? b then b - a else 0) by apply slen_step1.
+  apply range_compose.
+  - apply slen_eq; cbn [snd]; [lia|lia|]. intros j Hj. unfold inside. rewrite Hm.
+    destruct (a <? b) eqn:E; split; intros [[H1 H2]|[H1 H2]]; try lia; left; (split; [lia|]); nia.
+  - intros j [Hj0 Hj]. apply slen_iff in Hj; [|lia|lia]. unfold inside in Hj. unfold snth. rewrite Hm in *.
+    destruct (a <? b) eqn:E; destruct Hj as [[H1 H2]|[H1 H2]]; try lia; split; nia.
+Qed.
+
+Lemma rpo_contig_neg n f : 0 <= n -> wf_fsl n f -> f_step f < 0 ->
+  read_post_ok n (fsl_indices f)
+    (CSl (mkSl (Some (f_start (positive_slice f))) (f_stop (positive_slice f)) (Some 1)))
+    (PSl (rev_slice (f_step f))).
+Proof.
+  intros Hn Hwf Hst.
+  pose proof (positive_slice_wf n f Hn Hwf Hst) as Hpw.
+  assert (Hab : -1 <= stop_or f /\ (stop_or f < f_start f -> 0 <= f_start f <= n - 1)).
+  { unfold stop_or. destruct Hwf as [(H & _)|(_ & [(Ha & [Hb|(b0 & Hb & Hbb)])|(Ha & Hb)])]; try rewrite Hb; lia. }
+  pose proof (full_slicer_len_spec f ltac:(lia)) as HL. unfold full_slicer_len, fsl_triple in HL.
+  assert (HL0 : 0 <= stop_or f - f_start f -> slen (f_start f, stop_or f, f_step f) = 0).
+  { intros H. rewrite <- HL.
+    replace ((0 <? f_step f) && (stop_or f - f_start f <=? 0) || (f_step f <? 0) && (0 <=? stop_or f - f_start f)) with true by lia.
+    reflexivity. }
+  assert (HL1 : stop_or f - f_start f < 0 -> cdiv (stop_or f - f_start f) (f_step f) = slen (f_start f, stop_or f, f_step f)).
+  { intros H. rewrite <- HL.
+    replace ((0 <? f_step f) && (stop_or f - f_start f <=? 0) || (f_step f <? 0) && (0 <=? stop_or f - f_start f)) with false by lia.
+    reflexivity. }
+  clear HL.
+  unfold read_post_ok. split; [reflexivity|]. split; [|discriminate].
+  cbn [post_to_cidx axis_sel].
+  unfold positive_slice in *. replace (0 <? f_step f) with false in * by lia.
+  unfold fsl_indices at 1, fsl_triple.
+  set (a := f_start f) in *. set (b := stop_or f) in *. set (st := f_step f) in *.
+  destruct (0 <=? b - a) eqn:Eg; cbn [f_start f_stop f_step] in *.
+  - (* empty *)
+    specialize (HL0 ltac:(lia)).
+    change (mkSl (Some 0) (Some 0) (Some 1)) with (fsl_to_pslice (mkF 0 (Some 0) 1)).
+    rewrite py_indices_fsl by (try apply wf_fsl_unit; lia).
+    unfold fsl_indices, fsl_triple. cbn [f_start f_stop f_step stop_or].
+    rewrite (range_of_empty (a, b, st)) by exact HL0.
+    rewrite zlen_range_of. replace (slen (0, 0, 1)) with 0 by reflexivity.
+    rewrite py_indices_revstep by lia. replace (st <? 0) with true by lia.
+    rewrite (range_of_empty (0 - 1, -1, st)); [reflexivity|].
+    unfold slen. replace (0 <? st) with false by lia. reflexivity.
+  - specialize (HL1 ltac:(lia)).
+    rewrite HL1 in *. set (c := slen (a, b, st)) in *.
+    assert (Hc : 0 < c).
+    { assert (H0 : inside (a, b, st) 0) by (unfold inside; right; lia).
+      apply slen_iff in H0; [exact H0|lia|lia]. }
+    set (e := a + (c - 1) * st) in *.
+    assert (He : 0 <= e <= a).
+    { pose proof (range_bound a b st (c - 1) ltac:(lia) ltac:(unfold c; lia)) as [_ HB]. specialize (HB Hst).
+      unfold e. lia. }
+    change (mkSl (Some e) (Some (a + 1)) (Some 1)) with (fsl_to_pslice (mkF e (Some (a + 1)) 1)).
+    rewrite py_indices_fsl by (try apply wf_fsl_unit; lia).
+    unfold fsl_indices, fsl_triple. cbn [f_start f_stop f_step stop_or].
+    rewrite zlen_range_of. rewrite py_indices_revstep by (try apply slen_nonneg; lia).
+    replace (st <? 0) with true by lia.
+    assert (Hm : slen (e, a + 1, 1) = a + 1 - e) by (rewrite slen_step1; replace (e <? a + 1) with true by lia; reflexivity).
+    rewrite Hm.
+    assert (Hin : forall j, 0 <= j -> (inside (a, b, st) j <-> j < c)).
+    { intros j Hj. symmetry. apply slen_iff; lia. }
+    apply range_compose.
+    + apply slen_eq; cbn [snd]; [lia|lia|]. intros j Hj. rewrite (Hin j Hj). unfold inside, e.
+      split.
+      * intros [[H1 H2]|[H1 H2]]; [lia|]. nia.
+      * intros H. right. split; [lia|]. nia.
+    + intros j [Hj0 Hj]. apply slen_iff in Hj; [|lia|lia]. unfold inside in Hj. unfold snth.
+      destruct Hj as [[H1 H2]|[H1 H2]]; [lia|]. rewrite Hm. unfold e in *. split; [nia|lia].
+Qed.
+
+Lemma optimize_rest_int_sound k n af sl stride h rd ps : 0 <= k < n ->
+  optimize_rest (HInt k) n af sl stride h = Ok (rd, ps) -> read_post_ok n [k] rd ps.
+Proof.
+  intros Hk. unfold optimize_rest.
+  assert (Hfall : forall rd ps, Ok (CInt k, PDrop) = Ok (rd, ps) -> read_post_ok n [k] rd ps).
+  { intros rd0 ps0 H. injection H as <- <-. split; reflexivity. }
+  destruct af; [|apply Hfall].
+  destruct (h (HInt k) n stride) eqn:Eh; cbn [andb action_eqb].
+  - destruct sl; cbn [andb]; [apply Hfall|].
+    intros H. injection H as <- <-. now apply rpo_full_int.
+  - discriminate.
+  - rewrite andb_false_r. apply Hfall.
+Qed.
+
+Lemma optimize_rest_sl_sound f n af sl stride h rd ps : 0 <= n -> wf_fsl n f -> f_step f <> 0 ->
+  optimize_rest (HSl f) n af sl stride h = Ok (rd, ps) -> read_post_ok n (fsl_indices f) rd ps.
+Proof.
+  intros Hn Hwf Hst. unfold optimize_rest.
+  assert (Hfall : forall rd ps,
+    (if 0 <? f_step f then Ok (CSl (fsl_to_pslice f), PSl sl_none)
+     else Ok (CSl (fsl_to_pslice (positive_slice f)), PSl (rev_slice (-1)))) = Ok (rd, ps) ->
+    read_post_ok n (fsl_indices f) rd ps).
+  { intros rd0 ps0. destruct (0 <? f_step f) eqn:E; intros H; injection H as <- <-.
+    - apply rpo_same_pos; [assumption|assumption|lia].
+    - apply rpo_positive_rev; [assumption|assumption|lia]. }
+  assert (Hcontig : forall rd ps,
+    (if (f_step f =? -1) || (f_step f =? 1)
+     then if 0 <? f_step f then Ok (CSl (fsl_to_pslice f), PSl sl_none)
+          else Ok (CSl (fsl_to_pslice (positive_slice f)), PSl (rev_slice (-1)))
+     else Ok (CSl (mkSl (Some (f_start (if f_step f <? 0 then positive_slice f else f)))
+                        (f_stop (if f_step f <? 0 then positive_slice f else f)) (Some 1)),
+              PSl (rev_slice (f_step f)))) = Ok (rd, ps) ->
+    read_post_ok n (fsl_indices f) rd ps).
+  { intros rd0 ps0. destruct ((f_step f =? -1) || (f_step f =? 1)); [apply Hfall|].
+    destruct (f_step f <? 0) eqn:E; intros H; injection H as <- <-.
+    - apply rpo_contig_neg; [assumption|assumption|lia].
+    - apply rpo_contig_pos; [assumption|assumption|lia]. }
+  destruct af; [|apply Hfall].
+  cbn [andb].
+  destruct (h (HSl f) n stride) eqn:Eh; cbn [action_eqb andb].
+  - destruct sl; cbn [andb].
+    + apply Hcontig.
+    + intros H. injection H as <- <-. now apply rpo_full_slice.
+  - rewrite andb_false_r. apply Hcontig.
+  - rewrite andb_false_r. apply Hfall.
+Qed.
+
+Lemma pslice_eqb_none s : pslice_eqb s sl_none = true -> s = sl_none.
+Proof. destruct s as [[a|] [b|] [c|]]; try discriminate. reflexivity. Qed.
+
+Lemma fsl_eqb_eq a b : fsl_eqb a b = true -> a = b.
+Proof.
+  destruct a as [a1 a2 a3], b as [b1 b2 b3]. unfold fsl_eqb. cbn [f_start f_stop f_step].
+  intros H. apply andb_true_iff in H. destruct H as [H H3]. apply andb_true_iff in H. destruct H as [H1 H2].
+  apply Z.eqb_eq in H1, H3. subst.
+  destruct a2 as [x|], b2 as [y|]; cbn in H2; try discriminate; [apply Z.eqb_eq in H2; now subst|reflexivity].
+Qed.
+
+Theorem optimize_slicer_sound c n af sl stride h rd ps :
+  0 <= n -> valid_cidx n c ->
+  optimize_slicer c n af sl stride h = Ok (rd, ps) ->
+  read_post_ok n (axis_sel n c) rd ps.
+Proof.
+  intros Hn Hv. destruct c as [k|s|]; cbn [valid_cidx] in Hv; [| |contradiction]; cbn [optimize_slicer axis_sel].
+  - replace (k <? 0) with false by lia. now apply optimize_rest_int_sound.
+  - destruct (pslice_eqb s sl_none) eqn:E.
+    + apply pslice_eqb_none in E. subst s. intros H. injection H as <- <-.
+      rewrite (py_indices_none n Hn), (zseq_as_range n Hn). now apply rpo_none_none.
+    + destruct (fill_slicer_ok s n Hv) as [f Hf]. rewrite Hf. cbn [bind].
+      destruct (fill_slicer_indices s n f Hn Hf) as (Hi & Hst & _).
+      pose proof (fill_slicer_wf s n f Hn Hf) as Hwf. rewrite <- Hi.
+      destruct (fsl_eqb f (mkF 0 (Some n) 1)) eqn:E1.
+      * apply fsl_eqb_eq in E1. subst f. intros H. injection H as <- <-. now apply rpo_none_none.
+      * destruct (fsl_eqb f (mkF (n - 1) None (-1))) eqn:E2.
+        -- apply fsl_eqb_eq in E2. subst f. intros H. injection H as <- <-. now apply rpo_none_rev.
+        -- apply optimize_rest_sl_sound; [assumption|assumption|lia].
+Qed.
